@@ -36,6 +36,9 @@ def run(chk: Check) -> None:
         if prop == "C03":
             chk.ob(rule, construct, ok, loc, msg, facts)
             n += 1
+        elif prop == "C04" and rule in ("R03.2", "R03.3", "R03.5"):
+            # the table half of every pairing relies on the containment half being sound
+            chk.ob(rule, construct, ok, loc, msg, facts)
     chk.floor("R03.1", "uses of _local_uuid_cache", own.counts.get("table_uses", 0), 18)
     chk.floor("R03.3", "attach primitives", own.counts.get("attach_primitives", 0), 4)
     chk.floor("R03.3", "detach primitives", own.counts.get("detach_primitives", 0), 4)
